@@ -56,6 +56,11 @@ pub enum Kind {
     /// a large initialisation (population x dimension between 2^14 and 2^15 elements: code that
     /// switches strategy at a size threshold), evaluated and re-evaluated
     BigInit,
+    /// a user-defined mutation built on the public `Mutation` trait and the `mutation()` driver
+    /// that modifies coordinate by coordinate and validates afterwards: it fails in the middle
+    /// of an individual once the population has drifted far enough - the run ends with an
+    /// error and the state the caller still holds is audited
+    FailMutation,
 }
 
 pub const SHIPPED: [Kind; 21] = [
@@ -94,6 +99,7 @@ impl Kind {
             Kind::GaVariants => "ga-variants",
             Kind::EvalMix => "evaluation-of-mixed-populations",
             Kind::BigInit => "large-permutation-initialisation",
+            Kind::FailMutation => "modify-then-validate-mutation",
         }
     }
     pub fn family(self) -> Family {
@@ -290,6 +296,38 @@ where
 }
 
 // ---------------------------------------------------------------------------------------------
+// workload component: a mutation on the public `Mutation` trait + `mutation()` driver that
+// changes a solution coordinate by coordinate and validates each new coordinate afterwards
+
+#[derive(Clone, Serialize)]
+pub struct CheckedScaling {
+    pub factor: f64,
+    pub limit: f64,
+}
+
+impl<P> mutation::Mutation<P> for CheckedScaling
+where
+    P: HProblem + VectorProblem<Element = f64>,
+{
+    fn mutate(&self, solution: &mut Vec<f64>, _problem: &P, _state: &mut State<P>) -> ExecResult<()> {
+        for x in solution.iter_mut() {
+            *x *= self.factor;
+            eyre::ensure!(x.abs() <= self.limit, "injected: scaled coordinate {x} exceeds the limit {}", self.limit);
+        }
+        Ok(())
+    }
+}
+
+impl<P> Component<P> for CheckedScaling
+where
+    P: HProblem + VectorProblem<Element = f64>,
+{
+    fn execute(&self, problem: &P, state: &mut State<P>) -> ExecResult<()> {
+        mutation::mutation(self, problem, state)
+    }
+}
+
+// ---------------------------------------------------------------------------------------------
 // fault component: resizes the population behind the swarm components' back
 
 #[derive(Clone, Serialize)]
@@ -476,6 +514,15 @@ where
                     },
                     cond,
                 ))
+                .build())
+        }
+        Kind::FailMutation => {
+            let (factor, limit) = (c.p("factor"), c.p("limit"));
+            Ok(Configuration::builder()
+                .do_(initialization::RandomSpread::new(c.pu("population_size")))
+                .evaluate()
+                .update_best_individual()
+                .while_(cond, move |b| b.do_(Box::new(CheckedScaling { factor, limit })).evaluate().update_best_individual())
                 .build())
         }
         Kind::DeVariants => {
@@ -703,6 +750,13 @@ pub fn gen_case(g: &mut Gen, kind: Kind, o: &GenOpts) -> TCase {
             set("population_size", (2 * y as usize + g.below(10)) as f64);
             set("f", match g.below(5) { 0 => 0.0, 1 => 2.0, _ => g.f64_in(0.0, 2.0) });
             set("pc", prob(g));
+        }
+        Kind::FailMutation => {
+            set("population_size", (1 + g.below(6)) as f64);
+            // growth by 10 % .. 100 % per pass against a limit of 1 .. 4 domain widths: the
+            // validation fails within a few passes, at whatever coordinate gets there first
+            set("factor", *g.pick(&[0.9, 1.1, 1.5, 2.0, -1.7]));
+            set("limit", width * *g.pick(&[0.6, 1.0, 4.0]));
         }
         Kind::DeVariants => {
             let y = 1 + g.below(2) as u32;
